@@ -457,7 +457,8 @@ class GraphParser:
                 self.__class__.ARROW,
                 self.__class__.OP_OR,
                 self.__class__.OP_AND,
-                self.__class__.SUICIDE,
+                # (Not the suicide mark: it is only legal as a node prefix,
+                # which REC_NODE_FULL allows; "foo!", "foo!bar", "!" are bad.)
                 '(',
                 ')',
             ]:
